@@ -12,10 +12,12 @@ import systems
 TWO30 = Fraction(1, 2 ** 30)
 
 
-def chain_system(rng, depth, guess_kind, norm_kind):
+def chain_system(rng, depth, guess_kind, norm_kind, decl='domain', far=False):
     """feed-forward chain c0 -> c1 -> ... : each component is a polynomial of degree <= 2 in one exogenous input and (from the second on) in the
     previous component's output; data_fidelity resolves it exactly.  The coupling variables' TRUE ranges are computed exactly; their declared
-    domains are deliberately wrong guesses (too narrow / too wide / offset)."""
+    domains are deliberately wrong guesses (too narrow / too wide / offset), declared either as `domain=` or as a Uniform distribution (which
+    update_domain keeps in sync and the Leja rule uses as weight function).  far=True puts the exogenous inputs on (1e6, 1e6 + 1), un-normalised,
+    so that a length scale taken from the node magnitude instead of the node spread shows."""
     from amisc import Component, System, Variable
     specs = []
     lo, hi = Fraction(0), Fraction(1)
@@ -46,25 +48,29 @@ def chain_system(rng, depth, guess_kind, norm_kind):
         prev_range = (min(vals), max(vals))
         ranges.append(prev_range)
     norms = {'none': None, 'linear': 'linear(0.5, 1)', 'zscore': 'zscore(1, 2)', 'minmax': 'minmax'}
+    L = 10 ** 6 if far else 0
     for k in range(depth):
-        variables[f'x{k}'] = Variable(f'x{k}', distribution='U(0, 1)', norm=norms[norm_kind] if norm_kind != 'minmax' else 'minmax')
+        variables[f'x{k}'] = Variable(f'x{k}', distribution=f'U({L}, {L + 1})', norm=norms[norm_kind] if norm_kind != 'minmax' else 'minmax')
         tlo, thi = float(ranges[k][0]), float(ranges[k][1])
         w = (thi - tlo) or 1.0
         guess = {'exact': (tlo, thi), 'narrow': (tlo + 0.35 * w, thi - 0.35 * w), 'wide': (tlo - 3 * w, thi + 3 * w),
                  'offset': (thi + 0.5 * w, thi + 1.5 * w), 'unit': (0.0, 1.0)}[guess_kind]
         if not guess[1] > guess[0]:
             guess = (tlo, tlo + 1.0)
-        variables[f'u{k}'] = Variable(f'u{k}', domain=guess, norm=norms[norm_kind])
+        if decl == 'uniform':
+            variables[f'u{k}'] = Variable(f'u{k}', distribution=f'U({guess[0]!r}, {guess[1]!r})', norm=norms[norm_kind])
+        else:
+            variables[f'u{k}'] = Variable(f'u{k}', domain=guess, norm=norms[norm_kind])
     for k in range(depth):
         s = specs[k]
         ins = [variables[f'x{k}']] + ([variables[f'u{k - 1}']] if k else [])
 
         def model(inputs, _k=k, _s=s):
-            x = np.asarray(inputs[f'x{_k}'], dtype=float)
+            x = np.asarray(inputs[f'x{_k}'], dtype=float) - L
             u = np.asarray(inputs[f'u{_k - 1}'], dtype=float) if _k else 0.0
             return {f'u{_k}': _s['a'] * x * x + _s['b'] * x + _s['c'] * u + _s['d'] * 0.25 * u * u}
         comps.append(Component(model, ins, [variables[f'u{k}']], name=f'c{k}', vectorized=True, data_fidelity=(2,) * len(ins)))
-    return System(*comps, name='c04'), specs, f
+    return System(*comps, name='c04'), specs, f, L
 
 
 def run_chains(ctx: Ctx):
@@ -74,35 +80,55 @@ def run_chains(ctx: Ctx):
         guess = rng.choice(['exact', 'narrow', 'wide', 'offset', 'unit'])
         norm = rng.choice(['none', 'none', 'linear', 'zscore', 'minmax'])
         ub = rng.random() < 0.7; eb = rng.random() < 0.4
-        system, specs, f = chain_system(rng, depth, guess, norm)
+        decl = rng.choice(['domain', 'uniform']); far = rng.random() < 0.3
+        if n < 3:          # stratified: the first chains always cover far-offset inputs / Uniform-declared offset guesses with estimated bounds
+            depth = max(depth, 2)
+            if n == 0:
+                far, norm = True, 'none'
+            else:
+                decl, guess, eb, ub, norm = 'uniform', 'offset', True, (n == 2), 'none'
+        system, specs, f, L = chain_system(rng, depth, guess, norm, decl=decl, far=far)
         np.random.seed(ctx.seed * 23 + n)
-        case = {'chain': n, 'depth': depth, 'specs': specs, 'initial_guess': guess, 'norm': norm, 'update_bounds': ub, 'estimate_bounds': eb}
-        ctx.case(case, nontrivial=depth >= 2, kind=f'chain:{guess}:{norm}')
+        case = {'chain': n, 'depth': depth, 'specs': specs, 'initial_guess': guess, 'declared_as': decl, 'far_offset_inputs': far, 'norm': norm,
+                'update_bounds': ub, 'estimate_bounds': eb}
+        ctx.case(case, nontrivial=depth >= 2, kind=f'chain:{guess}:{norm}:{decl}{":far" if far else ""}')
         test_set = None
         if eb:
             rs = np.random.RandomState(n)
-            xt = {f'x{k}': rs.rand(20) for k in range(depth)}
+            xt = {f'x{k}': L + rs.rand(20) for k in range(depth)}
             yt = system.predict(xt, use_model='best', normalized_inputs=False)
             test_set = (xt, {k: np.asarray(v) for k, v in yt.items()})
         try:
             system.fit(max_iter=10 ** 3, num_refine=30, max_tol=-1.0, update_bounds=ub, estimate_bounds=eb, test_set=test_set)
         except Exception as e:
             ctx.violate('C04:training-raises', f'{type(e).__name__}: {e}', case); continue
+        stopped = False
         for c in system.components:
             box = int(np.prod([m + 1 for m in c.max_beta]))
             if len(c.active_set) != box:
-                ctx.violate('C04:not-exhausted', f'component {c.name}: {len(c.active_set)}/{box} indices active after training to exhaustion', case)
+                # recorded finding F8 (property C08): when the current surrogate is identically zero every relative error indicator is NaN, no
+                # candidate is chosen and fit() stops although candidates remain; training can then not be driven to exhaustion
+                rs0 = np.random.RandomState(7)
+                y0 = system.predict({f'x{k}': L + rs0.rand(16) for k in range(depth)}, normalized_inputs=False, index_set='train')
+                zero = all(np.all(np.asarray(v) == 0.0) for v in y0.values())
+                ctx.violate('C04:training-stops-on-identically-zero-surrogate' if zero else 'C04:not-exhausted',
+                            f'component {c.name}: {len(c.active_set)}/{box} indices active when fit() stopped' +
+                            (' (the surrogate is identically zero, every error indicator is NaN)' if zero else ''), case)
+                stopped = True; break
+        if stopped:
+            continue
         rs = np.random.RandomState(1000 + n)
-        xs = {f'x{k}': rs.rand(5) for k in range(depth)}
+        NS = 40 if far else 5
+        xs = {f'x{k}': L + rs.rand(NS) for k in range(depth)}
         xn = {k: np.asarray(system.inputs()[k].normalize(v), dtype=float) for k, v in xs.items()}
         try:
             y = system.predict(xn)
         except Exception as e:
             ctx.violate('C04:predict-raises', f'{type(e).__name__}: {e}', case); continue
-        for j in range(5):
+        for j in range(NS):
             u = Fraction(0)
             for k in range(depth):
-                u = f(k, Fraction(float(xs[f'x{k}'][j])), u)
+                u = f(k, Fraction(float(xs[f'x{k}'][j])) - L, u)
                 got = float(np.ravel(system.outputs()[f'u{k}'].denormalize(np.asarray(y[f'u{k}'])))[j])
                 scale = abs(u) + 10
                 if not (got == got and abs(Fraction(got) - u) <= Fraction(1, 10 ** 7) * scale):
@@ -146,6 +172,12 @@ def run_loops(ctx: Ctx):
                     ctx.violate('C04:loop-not-exact', f'u{i} at sample {j}: surrogate {got}, exact linear solve {float(ustar[i])} (initial guess "{guess}", '
                                 f'update_bounds={ub})', case); break
             else:
+                # the component downstream of the loop (z = 2 u0 + 1)
+                if 'z' in y:
+                    gz = float(np.ravel(y['z'])[j]); wz = 2 * ustar[0] + 1
+                    if not (gz == gz and abs(Fraction(gz) - wz) <= Fraction(1, 10 ** 7) * (abs(wz) + 10)):
+                        ctx.violate('C04:loop-not-exact', f'downstream output z at sample {j}: surrogate {gz}, exact {float(wz)} (initial guess "{guess}", '
+                                    f'update_bounds={ub})', case); break
                 continue
             break
 
